@@ -961,7 +961,8 @@ def boundary_cases():
         head + "struct Foo:\n  struct Bar:\n    0 [+1] UInt x\n  0 [+1] Bar y\n  1 [+1] Foo.Bar z\n",
         "struct Foo:\n  -- doc\n  [requires: true]\n  # c\n  0 [+1] UInt x -- d\n    -- more\n    [requires: this == 1]\n",
     ]
-    return [_case("boundary", {"m.emb": t}) for t in texts]
+    return [_case("boundary", {"m.emb": t}) for t in texts] + \
+        [_case("boundary/desugar-" + k, {"m.emb": t}) for k, t in desugar_boundary_texts()]
 
 
 def gen_chain(r):
@@ -988,17 +989,239 @@ def gen_chain(r):
     return _case("chain/" + mode, {"m.emb": "\n".join(L) + "\n"})
 
 
-GENERATORS = [("chain", gen_chain, 1), ("bytes", gen_bytes, 6), ("soup", gen_soup, 8), ("grammar", gen_grammar, 22),
-              ("sem", gen_sem, 36), ("nest", gen_nest, 3), ("mutate", gen_mutate, 18), ("imports", gen_imports, 7)]
+# ------------------------------------------------------------------ desugared constructs
+# Everything `synthetics.desugar` rewrites: `$next`, the `$size_in_*`/`$max_size_in_*`/`$min_size_in_*`
+# virtual fields, aliases of anonymous `bits`, inline types, abbreviations.  Each stream puts a
+# *semantic error at the construct itself* (wrong type, range too wide for 64 bits, misplaced,
+# colliding name, bad attribute) so that the message's only blame site is the desugared node.
+HEAD = '[$default byte_order: "LittleEndian"]\n'
+
+# predecessors of a `$next`: (lines, what `start + size` of the last physical field looks like)
+NEXT_PREDECESSORS = [
+    ("small", ["0 [+4]  UInt  a"]),
+    ("len64", ["0 [+8]  UInt  length", "8 [+length]  UInt:8[]  payload"]),              # 64-bit length prefix
+    ("len32", ["0 [+4]  UInt  length", "4 [+length]  UInt:8[]  payload"]),
+    ("far", ["0 [+1]  UInt  a", "18446744073709551615 [+1]  UInt  z"]),                 # end = 2**64
+    ("mul", ["0 [+8]  UInt  a", "a * 2 [+8]  UInt  z"]),
+    ("neg", ["0 [+8]  Int  a", "8 [+1]  UInt  b", "a [+1]  UInt  z"]),                  # possibly negative start
+    ("cond", ["0 [+1]  UInt  a", "if a == 1:", "  1 [+2]  UInt  z"]),
+    ("anon", ["0 [+1]  bits:", "  0 [+4]  UInt  lo", "  4 [+4]  UInt  hi"]),
+    ("virtual", ["0 [+2]  UInt  a", "let v = a + 1"]),                                  # virtual fields are skipped
+    ("arr", ["0 [+1]  UInt  n", "1 [+n * 4]  UInt:32[]  xs"]),
+    ("none", []),                                                                       # `$next` in the first field
+]
+# how the user writes the start of the field after it
+NEXT_FORMS = ["$next", "$next + 1", "$next * 2", "$next - 100", "-$next", "($next)", "$next ? 4 : 8",
+              "$present($next) ? 4 : 8", "$next && true", "$next == true", "$next == $next ? 4 : 8",
+              "$max($next, true)", "$max($next, 4)", "$upper_bound($next)", "$lower_bound($next)",
+              "true ? $next : 0", "$next.a", "$next + $next", "$next + a", "$next + Ee.AA", "$next < 4"]
+NEXT_ELSEWHERE = ["$next [+$next]  UInt  b", "4 [+$next]  UInt  b", "4 [+1]  UInt:8[$next]  b",
+                  "let b = $next", "4 [+1]  UInt  b\n    [requires: this == $next]",
+                  "if $next == 4:\n    4 [+1]  UInt  b", "4 [+1]  Pp($next)  b", "$next [+1]  Pp($next)  b"]
+
+
+# Layout convention of the pieces: the first line of a piece is relative to the body of the structure
+# (it gets the body indentation), continuation lines carry their absolute indentation.
+def _struct(name, pieces, params=""):
+    return "struct %s%s:\n%s\n" % (name, params, "\n".join("  " + ln for ln in pieces))
+
+
+def place(piece, first_extra, cont_extra=""):
+    lines = piece.split("\n")
+    return "\n".join([first_extra + lines[0]] + [cont_extra + ln for ln in lines[1:]])
+
+
+def next_case(pred, form, tail="[+1]  UInt  b", more=()):
+    body = list(pred) + ["%s %s" % (form, tail)] + list(more)
+    return (HEAD + "enum Ee:\n  AA = 1\nstruct Pp(p: UInt:8):\n  0 [+p]  UInt:8[]  a\n" + _struct("Foo", body))
+
+
+SIZE_WORDS = ["$size_in_bytes", "$max_size_in_bytes", "$min_size_in_bytes", "$size_in_bits", "$max_size_in_bits",
+              "$min_size_in_bits"]
+SIZE_USES = ["let y = %s == true", "let y = %s && true", "let y = %s ? 1 : 2", "let y = $present(%s)",
+             "let y = %s + Ee.AA", "let y = %s.a", "let y = %s * 18446744073709551616", "let y = -%s - 9223372036854775808",
+             "0 [+%s]  UInt:8[]  y", "%s [+1]  UInt  y", "if %s == 1:\n    0 [+1]  UInt  y", "if %s:\n    0 [+1]  UInt  y",
+             "0 [+1]  UInt:8[%s]  y", "0 [+1]  UInt  y\n    [requires: this == %s]", "0 [+1]  UInt  y\n    [requires: %s]",
+             "let %s = 1", "0 [+1]  UInt  %s", "0 [+1]  UInt  y (%s)", "0 [+1]  Pp(%s)  y", "let y = $upper_bound(%s)",
+             "let y = %s\n    [requires: this]", "let y = x.%s", "let y = Inner.%s", "let y = %s(1)", "let y = dyn.%s * 2",
+             "dyn.%s [+1]  UInt  y", "let y = $max(%s, x, true)"]
+SIZE_BODIES = [
+    ("fixed", ["0 [+1]  UInt  x"]),
+    ("dyn", ["0 [+1]  UInt  x", "1 [+x]  UInt:8[]  xs"]),
+    ("wide", ["0 [+8]  UInt  x", "8 [+x]  UInt:8[]  xs"]),
+    ("param", ["q [+2]  UInt  x"]),
+    ("sub", ["0 [+1]  UInt  x", "1 [+3]  Dyn  dyn"]),
+    ("subwide", ["0 [+8]  UInt  x", "8 [+x]  Dyn  dyn"]),
+    ("empty", []),
+]
+
+
+def size_case(body_kind, body, use, word, in_bits=False):
+    decl = "bits" if in_bits else "struct"
+    params = "(q: UInt:64)" if body_kind == "param" and not in_bits else ""
+    if in_bits:
+        body = ["0 [+8]  UInt  x"]
+    lines = list(body) + [use.replace("%s", word)]
+    return (HEAD + "enum Ee:\n  AA = 1\nstruct Inner:\n  0 [+1]  UInt  a\nstruct Dyn:\n  0 [+1]  UInt  n\n  1 [+n]  UInt:8[]  b\n"
+            "struct Pp(p: UInt:8):\n  0 [+p]  UInt:8[]  a\n" + "%s Foo%s:\n%s\n" % (decl, params, "\n".join("  " + ln for ln in lines)))
+
+
+ANON_SUBFIELDS = [
+    "0 [+1]  Flag  a", "0 [+1]  Flag  a\n      [text_output: 1]", "0 [+1]  Flag  a\n      [text_output: \"x\"]",
+    "0 [+1]  Flag  a\n      [text_output: \"Skip\"]\n      [text_output: \"Emit\"]", "0 [+4]  UInt  a\n      [requires: this == true]",
+    "0 [+4]  UInt  a\n      [requires: this]", "0 [+4]  UInt  a\n      [requires: outer == 1]", "0 [+4]  UInt  a\n      [byte_order: \"BigEndian\"]",
+    "0 [+4]  UInt  a\n      [bogus: 1]", "0 [+4]  UInt  a\n      [(cpp) bogus: 1]", "0 [+9]  UInt  a", "0 [+0]  UInt  a", "8 [+1]  Flag  a",
+    "0 [+1]  Flag  a\n    0 [+1]  Flag  a", "0 [+1]  Flag  outer", "0 [+1]  Flag  a (outer)", "0 [+1]  Flag  a (a)", "0 [+1]  Flag  a (b)\n    1 [+1]  Flag  b",
+    "0 [+1]  Flag  class", "0 [+1]  Flag  emboss_reserved_x", "0 [+1]  Flag  a (class)", "0 [+1]  Flag  int", "0 [+1]  Flag  ok", "0 [+1]  Flag  read",
+    "0 [+1]  Flag  a_1\n    1 [+1]  Flag  a1", "0 [+outer]  UInt  a", "outer [+1]  Flag  a", "0 [+1]  Flag  a\n    $next [+1]  Flag  b",
+    "$next [+1]  Flag  a", "0 [+1]  Ee  a", "0 [+4]  Inner  a", "0 [+4]  Float  a", "0 [+4]  UInt:8[]  a", "0 [+1]  Flag[1]  a",
+    "if outer == 1:\n      0 [+1]  Flag  a", "if a:\n      0 [+1]  Flag  a", "let a = 1", "let a = outer", "let a = $size_in_bits == true",
+    "0 [+4]  bits:\n      0 [+1]  Flag  a", "0 [+4]  enum a:\n      XX = 1", "0 [+4]  bits a:\n      0 [+1]  Flag  a",
+    "-- doc\n    0 [+1]  Flag  a", "[text_output: \"Emit\"]\n    0 [+1]  Flag  a", "[text_output: \"Skip\"]\n    0 [+1]  Flag  a",
+    "[text_output: 1]\n    0 [+1]  Flag  a", "[byte_order: \"BigEndian\"]\n    0 [+1]  Flag  a", "[requires: a]\n    0 [+1]  Flag  a",
+    "[requires: a == 1]\n    0 [+1]  Flag  a", "[bogus: 1]\n    0 [+1]  Flag  a", "[(cpp) namespace: \"x\"]\n    0 [+1]  Flag  a",
+    "[maximum_bits: 8]\n    0 [+1]  Flag  a", "[fixed_size_in_bits: 9]\n    0 [+1]  Flag  a", "[$default byte_order: \"Null\"]\n    0 [+1]  Flag  a",
+]
+ANON_USES = ["", "let y = a", "let y = a + 1", "let y = a && true", "let y = $present(a)", "if a:\n    2 [+1]  UInt  y", "a [+1]  UInt  y",
+             "2 [+1]  UInt  a", "let a = 1", "2 [+1]  UInt  y (a)", "2 [+1]  UInt  y\n    [requires: this == a]", "2 [+a]  UInt:8[]  y",
+             "$next [+1]  UInt  y", "$next [+a]  UInt:8[]  y"]
+ANON_HEADS = ["1 [+1]  bits:", "1 [+2]  bits:", "1 [+0]  bits:", "1 [+9]  bits:", "1 [+outer]  bits:", "outer [+1]  bits:", "$next [+1]  bits:",
+              "if outer == 1:\n    1 [+1]  bits:", "1 [+1]  bits:\n    [text_output: \"Emit\"]", "1 [+1]  bits:  [text_output: \"Emit\"]"]
+
+INLINE_FIELDS = [
+    "1 [+1]  enum foo:\n    AA = 1", "1 [+1]  enum foo:\n    AA = 256", "1 [+1]  enum foo:\n    AA = true", "1 [+1]  enum foo:\n    AA = outer",
+    "1 [+1]  enum foo:\n    AA = 1\n    AA = 2", "1 [+9]  enum foo:\n    AA = 1", "1 [+0]  enum foo:\n    AA = 1", "1 [+1]  enum foo:\n    [maximum_bits: 4]\n    AA = 1",
+    "1 [+1]  enum foo:\n    [is_signed: true]\n    AA = -200", "1 [+1]  enum main:\n    AA = 1", "1 [+1]  enum ee:\n    AA = 1", "1 [+1]  enum outer:\n    AA = 1",
+    "1 [+1]  enum class:\n    AA = 1", "1 [+1]  enum emboss_reserved_x:\n    AA = 1", "1 [+1]  enum u_int:\n    AA = 1", "1 [+1]  enum foo_bar_1:\n    AA = 1\n  2 [+1]  enum foo_bar1:\n    BB = 1",
+    "1 [+1]  enum foo:\n    AA = 1\n  2 [+1]  enum foo:\n    BB = 1", "1 [+1]  enum foo:\n    AA = 1\n  2 [+1]  Foo  again", "1 [+1]  enum foo:\n    AA = 1\n  let y = Foo.AA",
+    "1 [+1]  enum foo:\n    AA = 1\n  let y = foo == Foo.AA", "1 [+1]  enum foo:\n    AA = 1\n  let y = foo + 1", "1 [+1]  enum foo:\n    AA = 1\n  let y = Main.Foo.BB",
+    "1 [+1]  enum foo (f):\n    AA = 1\n  let f = 1", "1 [+1]  enum foo:\n    AA = 1\n    [requires: this == 1]", "1 [+1]  enum foo:\n    -- doc\n    AA = 1",
+    "1 [+2]  struct foo:\n    0 [+1]  UInt  x", "1 [+1]  struct foo:\n    0 [+2]  UInt  x", "1 [+outer]  struct foo:\n    0 [+outer]  UInt:8[]  x",
+    "1 [+2]  struct foo:\n    0 [+1]  UInt  x\n    $next [+1]  UInt  y", "1 [+2]  struct foo:\n    $next [+1]  UInt  x", "1 [+2]  struct foo:\n    0 [+$size_in_bytes]  UInt:8[]  x",
+    "1 [+2]  struct foo:\n    0 [+1]  UInt  x\n    let y = $size_in_bytes == true", "1 [+2]  struct foo:\n    0 [+1]  UInt  x\n  let y = foo.$size_in_bytes == true",
+    "1 [+2]  struct foo:\n    0 [+1]  UInt  foo", "1 [+2]  struct foo:\n    0 [+1]  Foo  x", "1 [+2]  struct foo:\n    0 [+1]  struct foo:\n      0 [+1]  UInt  x",
+    "1 [+2]  struct foo:\n    0 [+1]  bits:\n      0 [+1]  Flag  a\n  let y = foo.a", "1 [+2]  struct foo:\n    [requires: x == true]\n    0 [+1]  UInt  x",
+    "1 [+2]  struct foo(p: UInt:8):\n    0 [+1]  UInt  x", "1 [+2]  struct foo:\n    0 [+1]  UInt  x\n  2 [+2]  struct foo:\n    0 [+1]  UInt  x",
+    "1 [+1]  bits foo:\n    0 [+4]  UInt  x", "1 [+1]  bits foo:\n    0 [+9]  UInt  x", "1 [+1]  bits foo:\n    0 [+4]  UInt  x\n    $next [+5]  UInt  y",
+    "1 [+1]  bits foo:\n    0 [+1]  Flag  x\n  if foo.x:\n    2 [+1]  UInt  y", "1 [+1]  bits foo:\n    0 [+1]  Flag  x\n  foo.x [+1]  UInt  y",
+    "1 [+1]  external foo:\n    [is_integer: true]", "1 [+2]  struct foo:\n    0 [+1]  UInt  x\n  $next [+foo.$size_in_bytes]  UInt:8[]  y",
+    "1 [+1]  enum foo:\n    AA = 1\n  $next [+1]  Foo  y\n  $next [+1]  Main.Foo  z",
+]
+ABBREVIATIONS = [
+    "1 [+1]  UInt  x (x)", "1 [+1]  UInt  x (outer)", "1 [+1]  UInt  x (y)\n  let y = 1", "1 [+1]  UInt  x (y)\n  2 [+1]  UInt  z (y)", "1 [+1]  UInt  x (class)",
+    "1 [+1]  UInt  x (emboss_reserved_y)", "1 [+1]  UInt  x (y)\n  let z = y + x", "1 [+1]  UInt  x (y)\n  y [+1]  UInt  z", "1 [+1]  UInt  x (y)\n  let z = y && true",
+    "1 [+1]  UInt  x (y)\n  let z = $present(y)", "1 [+1]  UInt  x (y)\n    [requires: y == 1]", "1 [+1]  UInt  x (y)\n    [requires: this == y]", "1 [+1]  UInt  x (Y)",
+    "1 [+1]  UInt  x ($next)", "1 [+1]  UInt  x (y) (z)", "1 [+1]  UInt  x ()", "let x (y) = 1", "1 [+1]  bits x (y):\n    0 [+1]  Flag  y", "1 [+1]  enum x (y):\n    Y = 1",
+    "1 [+1]  UInt  x (y)\n  let w = Main.y", "1 [+1]  UInt  x (y)\n  $next [+y]  UInt:8[]  z", "1 [+1]  UInt  x (y_1)\n  2 [+1]  UInt  z (y1)", "1 [+1]  Flag  x (y)\n  if y:\n    2 [+1]  UInt  z",
+    "1 [+1]  UInt  x (size)\n  let z = size", "1 [+1]  UInt  x (ok)", "1 [+1]  UInt  x (y)\n  1 [+1]  bits:\n    0 [+1]  Flag  y",
+]
+
+
+def _main(lines):
+    return (HEAD + "enum Ee:\n  AA = 1\nstruct Inner:\n  0 [+1]  UInt  a\nstruct Dyn:\n  0 [+1]  UInt  n\n  1 [+n]  UInt:8[]  b\n"
+            "struct Main:\n  0 [+1]  UInt  outer\n" + "".join("  " + ln + "\n" for ln in lines if ln))
+
+
+def desugar_boundary_texts():
+    """Enumerated (not sampled): every `$next` form after every kind of predecessor, every size
+    keyword in every misuse, one module per anonymous-bits / inline-type / abbreviation fault."""
+    out = []
+    for pk, pred in NEXT_PREDECESSORS:
+        for form in NEXT_FORMS:
+            out.append(("next/%s" % pk, next_case(pred, form)))
+    for ln in NEXT_ELSEWHERE:
+        out.append(("next/elsewhere", next_case(NEXT_PREDECESSORS[0][1], "$next", more=[ln])))
+        out.append(("next/elsewhere-first", next_case([], "0", more=[ln])))
+    for i, use in enumerate(SIZE_USES):
+        for j, (bk, body) in enumerate(SIZE_BODIES):
+            # every use with every body for the byte words would be 27*7*6 modules: rotate the words
+            word = SIZE_WORDS[(i + j) % 3]
+            out.append(("size/%s" % bk, size_case(bk, body, use, word)))
+        out.append(("size/bits", size_case("fixed", [], use, SIZE_WORDS[3 + i % 3], in_bits=True)))
+        out.append(("size/wrong-unit", size_case("fixed", ["0 [+1]  UInt  x"], use, SIZE_WORDS[3 + i % 3])))
+    for sub in ANON_SUBFIELDS:
+        out.append(("anon/subfield", _main(["1 [+1]  bits:", "  " + sub])))
+    for use in ANON_USES:
+        out.append(("anon/use", _main(["1 [+1]  bits:", "  0 [+1]  Flag  a", "  1 [+3]  UInt  b", use])))
+    for hd in ANON_HEADS:
+        out.append(("anon/head", _main([hd, "  " + ("  " if hd.startswith("if") else "") + "0 [+1]  Flag  a"])))
+    for f in INLINE_FIELDS:
+        out.append(("inline", _main([f])))
+    for a in ABBREVIATIONS:
+        out.append(("abbrev", _main([a])))
+    return out
+
+
+def gen_desugar(r):
+    """Random combinations of the pieces above (two or three desugared constructs in one
+    structure, so that an error at one of them meets the synthesized fields of the others)."""
+    k = r.random()
+    if k < 0.3:
+        pk, pred = r.choice(NEXT_PREDECESSORS)
+        pk2, pred2 = r.choice(NEXT_PREDECESSORS)
+        form = r.choice(NEXT_FORMS)
+        tail = r.choice(["[+1]  UInt  b", "[+8]  UInt  b", "[+2]  Inner2  b", "[+1]  bits:\n    0 [+1]  Flag  fl", "[+b0]  UInt:8[]  b",
+                         "[+1]  UInt  b (bb)", "[+1]  enum b:\n    XX = 1"])
+        more = []
+        if r.random() < 0.5:
+            more = ["%s [+1]  UInt  c" % r.choice(NEXT_FORMS)]
+        if r.random() < 0.3:
+            more += [r.choice(NEXT_ELSEWHERE).replace("  b", "  d").replace("let b", "let d")]
+        if r.random() < 0.3:
+            more += [r.choice(SIZE_USES).replace("%s", r.choice(SIZE_WORDS[:3])).replace(" y", " yy")]
+        pre = list(pred)
+        if r.random() < 0.2:
+            pre = [ln.replace("a", "a2").replace("length", "l2").replace("payloa2d", "p2").replace("z", "z2") for ln in pred2] + pre
+        text = next_case(pre, form, tail, more).replace("Inner2", "Pp(1)")
+        return _case("desugar/next-" + pk, {"m.emb": text})
+    if k < 0.5:
+        bk, body = r.choice(SIZE_BODIES)
+        uses = [r.choice(SIZE_USES).replace("%s", r.choice(SIZE_WORDS)).replace(" y", " y%d" % i) for i in range(r.choice([1, 1, 2, 3]))]
+        text = size_case(bk, body, "\n  ".join(uses), "", in_bits=r.random() < 0.15)
+        return _case("desugar/size-" + bk, {"m.emb": text})
+    if k < 0.75:
+        lines = [r.choice(ANON_HEADS)]
+        deeper = "  " if lines[0].startswith("if") else ""
+        for i in range(r.choice([1, 1, 2, 3])):
+            sub = r.choice(ANON_SUBFIELDS)
+            if i:
+                sub = re.sub(r"\ba\b", "a%d" % i, sub).replace("0 [+", "%d [+" % (i * 2), 1)
+            lines.append(place(sub, "  " + deeper, deeper))
+        for _ in range(r.choice([0, 1, 2])):
+            lines.append(r.choice(ANON_USES))
+        if r.random() < 0.3:
+            lines.append(r.choice(ABBREVIATIONS))
+        return _case("desugar/anon", {"m.emb": _main(lines)})
+    lines = []
+    for i in range(r.choice([1, 2, 2, 3])):
+        piece = r.choice(INLINE_FIELDS if r.random() < 0.6 else ABBREVIATIONS)
+        if i and r.random() < 0.7:
+            piece = piece.replace("foo", "foo%d" % i).replace("Foo", "Foo%d" % i).replace("  x", "  x%d" % i)
+        lines.append(piece)
+    if r.random() < 0.3:
+        lines += ["%s [+1]  UInt  last" % r.choice(NEXT_FORMS)]
+    if r.random() < 0.3:
+        lines += [r.choice(SIZE_USES).replace("%s", r.choice(SIZE_WORDS[:3])).replace(" y", " yy")]
+    return _case("desugar/inline-abbrev", {"m.emb": _main(lines)})
+
+
+GENERATORS = [("chain", gen_chain, 1), ("bytes", gen_bytes, 5), ("soup", gen_soup, 7), ("grammar", gen_grammar, 19),
+              ("sem", gen_sem, 32), ("nest", gen_nest, 3), ("mutate", gen_mutate, 16), ("imports", gen_imports, 6),
+              ("desugar", gen_desugar, 12)]
 
 
 class _Huge:
     """Narrow predicate of the open finding `timeout:constant-field-size>=10^6`: some field
-    size expression `[+ … ]` contains a numeric literal >= 10**6, or a `Type:N` size specifier has
-    N >= 10**6 (textual over-approximation
-    of "the constant size of a field is astronomically large")."""
+    size expression `[+ … ]` contains a numeric literal >= 10**6 or a bound function
+    (`$upper_bound(…)`/`$lower_bound(…)`, constant-evaluated since fix 262d011), or a `Type:N` size
+    specifier has N >= 10**6 (textual over-approximation of "the constant size of a field is
+    astronomically large"; it only names the key of an input that *did* exhaust its CPU budget and
+    steers the random generators away from such sizes)."""
     _num = re.compile(r"0[xX][0-9a-fA-F_]+|0[bB][01_]+|[0-9][0-9_]*")
     _tsize = re.compile(r"[A-Za-z]:([0-9][0-9_]*)")
+    # round 2: since fix 262d011 `$upper_bound(x)`/`$lower_bound(x)` are evaluated in constant
+    # expressions, so `[+$upper_bound(f)]` with a 32-bit `f` is a constant size of 2**31 bytes
+    _bound = re.compile(r"\$(upper_bound|lower_bound)\b")
 
     def search(self, text):
         for line in text.splitlines():
@@ -1013,6 +1236,9 @@ class _Huge:
                         if depth == 0:
                             break
                     j += 1
+                m = self._bound.search(line[i + 2:j])
+                if m:
+                    return m
                 for m in self._num.finditer(line[i + 2:j]):
                     t = m.group(0).replace("_", "")
                     try:
